@@ -317,6 +317,8 @@ class Exec:
                     raise OutOfReach("empty tuple of unknown element sort")
                 return VSeq(z3.Empty(z3.SeqSort(hint.z3())), hint)
             es = S.sort_of(items[0])
+            if es is S.Int and hint in (S.Real, S.Float) and all(isinstance(it, VNum) for it in items):
+                es = hint  # a list of ints joined with / passed as a sequence of exact numbers
             t = None
             for it in items:
                 u = z3.Unit(self.term_of(it, es))
@@ -689,6 +691,11 @@ class Exec:
             return container.term[item.term]
         if isinstance(container, VDict) and isinstance(item, VStr):
             return container.keys[item.term]
+        if isinstance(container, VSeq) and container.elem is S.Ballot and isinstance(item, VRec) and item.cls == "Ballot" and not self.spec_mode:
+            # `b in ballots` in code: some element e with e.__eq__(b) (the element is the left operand, as CPython's sequence search compares)
+            from .calls import apply_spec
+            sp = self.ctx.registry.specs["bfind"]
+            return apply_spec(self, sp, [container, VNum(z3.Length(container.term), "int"), item], st).term >= 0
         if isinstance(container, VSeq):
             it = self.term_of(item, container.elem)
             return z3.Contains(container.term, z3.Unit(it))
@@ -747,6 +754,9 @@ class Exec:
             if isinstance(a, VTup) and isinstance(b, VTup):
                 return VTup(a.items + b.items)
             hint = a.elem if isinstance(a, VSeq) else b.elem
+            if isinstance(a, VSeq) and isinstance(b, VSeq) and {a.elem, b.elem} == {S.Int, S.Real}:
+                hint = S.Real  # a literal list of ints joined with a sequence of exact numbers
+                a, b = (self.int_seq_to_real(a), b) if a.elem is S.Int else (a, self.int_seq_to_real(b))
             sa, sb = self.as_seq(a, hint), self.as_seq(b, hint)
             return VSeq(z3.Concat(sa.term, sb.term), sa.elem, sa.kind)
         if isinstance(a, VSeq) and isinstance(b, VNum) and isinstance(op, ast.Mult):
@@ -780,6 +790,23 @@ class Exec:
         st.facts.append(z3.Implies(z3.And(z3.IsInt(q * 2), q < 2 ** 52, q > -(2 ** 52)), t == q))
         st.facts.append(z3.And(t - q <= z3.If(q >= 0, q, -q) / (2 ** 53), q - t <= z3.If(q >= 0, q, -q) / (2 ** 53)))
         return VNum(t, "float")
+
+    def int_seq_to_real(self, v: VSeq):
+        """a literal sequence of ints [i1, ..., ik] as a sequence of exact numbers"""
+        def units(t):
+            if z3.is_app(t) and t.decl().kind() == z3.Z3_OP_SEQ_UNIT:
+                return [t.children()[0]]
+            if z3.is_app(t) and t.decl().kind() == z3.Z3_OP_SEQ_CONCAT:
+                out = []
+                for c in t.children():
+                    out += units(c)
+                return out
+            if z3.is_app(t) and t.decl().kind() == z3.Z3_OP_SEQ_EMPTY:
+                return []
+            raise OutOfReach("symbolic int sequence joined with a real sequence")
+        us = [z3.Unit(z3.ToReal(u)) for u in units(v.term)]
+        t = z3.Empty(z3.SeqSort(z3.RealSort())) if not us else (us[0] if len(us) == 1 else z3.Concat(*us))
+        return VSeq(t, S.Real, v.kind)
 
     def replicate(self, st, a: VSeq, n: VNum):
         from .builtins_model import rep_fn
